@@ -746,7 +746,7 @@ impl Engine for C08 {
 	fn meta(&self, _tier: Tier) -> Meta {
 		Meta {
 			level: "model_checking",
-			rule: "explicit-state exploration (DFS over snapshots of the backend directory, memoised on reference state + file contents + remaining depth) of the real prunable PMMRBackend for a fixed-size and a variable-size element type. Alphabet: a unit of work = optional rewind to any earlier block boundary not below the last compaction cutoff (block by block, each with the bitmap of the leaves that block removed, exactly as Extension::rewind does) then one or two blocks of 0..3 appends and removal of any <= 2 live leaves (spend-only blocks included), then sync or discard; check_compact at any boundary with the rewind bitmap of later removals; reopen. After every step the view through PMMR::at must agree with an unpruned reference: root, size, get_data/get_hash of every live leaf, None for spent leaves, a merkle_proof for every live leaf verifying against the root, leaf_pos_iter, leaf_idx_iter(from) for every from, n_unpruned_leaves, PMMR::validate. The snapshot parts open a fresh backend object for every step and start from the empty backend and from one holding four synced leaves of which two are spent. (live parts) the same oracle with ONE backend object kept open along each path (only `reopen` replaces it), so that what the backend keeps in memory between units of work is explored too: every path of the depth bound (no memoisation) over a narrower alphabet {unit = rewind to the current boundary or one block back, then +1 / -first live / +1 -first live, sync or discard; the same blocks in a unit that does not rewind at all; a read-only unit (rewind, look, discard); compact at the last two boundaries; reopen}, from both start states.",
+			rule: "explicit-state exploration (DFS over snapshots of the backend directory, memoised on reference state + file contents + remaining depth) of the real prunable PMMRBackend for a fixed-size and a variable-size element type. Alphabet: a unit of work = optional rewind to any earlier block boundary not below the last compaction cutoff (block by block, each with the bitmap of the leaves that block removed, exactly as Extension::rewind does) then one or two blocks of 0..3 appends and removal of any <= 2 live leaves (spend-only blocks included), then sync or discard; check_compact at any boundary with the rewind bitmap of later removals; reopen. After every step the view through PMMR::at must agree with an unpruned reference: root, size, get_data/get_hash of every live leaf, None for spent leaves, a merkle_proof for every live leaf verifying against the root, leaf_pos_iter, leaf_idx_iter(from) for every from, n_unpruned_leaves, PMMR::validate. The snapshot parts open a fresh backend object for every step and start from the empty backend and from one holding four synced leaves of which two are spent. (live parts) the same oracle with ONE backend object kept open along each path (only `reopen` replaces it), so that what the backend keeps in memory between units of work is explored too: every path of the depth bound (no memoisation) over a narrower alphabet {unit = rewind to the current boundary or one block back, then +1 / -first live / +1 -first live, sync or discard; the same blocks in a unit that does not rewind at all; a read-only unit (rewind, look, discard); compact at the last two boundaries; reopen}, from both start states. (chain-compaction) the chain-level clause: on a 90-block chain whose pre-horizon outputs were spent in the patterns that matter to the pruner (siblings; the head block itself spending an old output whose sibling is spent), every order of {Chain::compact, reopen, the next block, a three-block fork from inside the horizon that reorgs the head out}: the unspent set must stay the reference replay of the winning chain and full validation must pass.",
 			assumptions: vec![
 				"rewinds never go below the last compaction cutoff and happen before the appends of a unit (the store's documented usage protocol)".into(),
 				"3 units of work with up to 3 appends and 9 leaves (quick) / 4 units with up to 2 appends and 7 leaves (thorough), plus up to 2 compactions and 1 reopen anywhere in between; removal sets of size <= 2 per block".into(),
@@ -756,7 +756,7 @@ impl Engine for C08 {
 		}
 	}
 	fn parts(&self, _tier: Tier) -> Vec<(&'static str, usize)> {
-		vec![("fixed", 16), ("variable", 16), ("live-fixed", 16), ("live-variable", 16)]
+		vec![("fixed", 16), ("variable", 16), ("live-fixed", 16), ("live-variable", 16), ("chain-compaction", 8)]
 	}
 	fn run_part(&self, part: &str, tier: Tier, shard: usize, n: usize) -> Report {
 		match part {
@@ -764,10 +764,16 @@ impl Engine for C08 {
 			"variable" => run::<VarElem>(tier, shard, n, "variable"),
 			"live-fixed" => live::<Elem>(tier, shard, n, "fixed"),
 			"live-variable" => live::<VarElem>(tier, shard, n, "variable"),
+			// the chain-level clause: Chain::compact on a 90-block chain in every order with reopen,
+			// the next block and a fork that reorgs the head out (the engine of C02's compaction part)
+			"chain-compaction" => crate::c02::compaction(tier, shard, n),
 			_ => panic!("unknown part"),
 		}
 	}
 	fn replay(&self, case: &Value) -> Result<String, String> {
+		if case.get("instance").is_some() {
+			return crate::Engine::replay(&crate::c02::C02, case);
+		}
 		let hist: Vec<String> = case["history"].as_array().ok_or("no history")?.iter().filter_map(|x| x.as_str().map(|s| s.to_string())).collect();
 		let ops: Vec<Op> = hist.iter().map(|h| parse_op(h)).collect::<Result<_, _>>()?;
 		let a = replay_ops::<Elem>(&ops, "fixed");
